@@ -2,17 +2,18 @@
 // ends with a complete render.
 //
 // Monitors (DESIGN 4/C05):
-//   (a) Go race detector: this package is run from the -race build of vh and it
-//       drives the -race build of the CLI; the orchestrator counts report blocks.
-//   (b) sample/render exclusion: Sample and the render callback are bracketed
-//       with monotonic-clock stamps kept in per-role logs (no shared locks or
-//       atomics between sampler and renderer, so the monitor adds no
-//       happens-before edge that would hide a race from (a)); overlap is
-//       decided offline.
-//   (c) offline event-log checker: completeness of the final render, nothing
-//       after it, monotone snapshots.
-//   (d) termination with stuck-state evidence.
-//   (e) porcupine over object-pool histories (thorough).
+//
+//	(a) Go race detector: this package is run from the -race build of vh and it
+//	    drives the -race build of the CLI; the orchestrator counts report blocks.
+//	(b) sample/render exclusion: Sample and the render callback are bracketed
+//	    with monotonic-clock stamps kept in per-role logs (no shared locks or
+//	    atomics between sampler and renderer, so the monitor adds no
+//	    happens-before edge that would hide a race from (a)); overlap is
+//	    decided offline.
+//	(c) offline event-log checker: completeness of the final render, nothing
+//	    after it, monotone snapshots.
+//	(d) termination with stuck-state evidence.
+//	(e) porcupine over object-pool histories (thorough).
 package p05
 
 import (
@@ -99,6 +100,10 @@ type loopMon struct {
 	renders []renderEv
 	// returned is stamped after RunAggregationLoop returns
 	returned int64
+	// first point between two sample batches at which the matched total was below the matches already sampled
+	lagAt                  int64
+	lagMatched, lagSampled uint64
+	batchPoints            int
 }
 
 func (m *loopMon) now() int64 { return int64(time.Since(m.t0)) }
@@ -162,6 +167,7 @@ func runLoop(w *pipe.Workload, dir string, stretchMs int, linger bool, limit tim
 		verifhook.Set("batch.beforeSendLast", f)
 	}
 	rs := run.NewRand(w.Seed, "sched")
+	var afterBatchDelay func()
 	slp := func(maxUs int) func() {
 		var c2 atomic.Int64
 		return func() {
@@ -178,7 +184,7 @@ func runLoop(w *pipe.Workload, dir string, stretchMs int, linger bool, limit tim
 	case 0:
 		verifhook.Set("worker.beforeSend", slp(300))
 	case 1:
-		verifhook.Set("agg.afterSampleBatch", slp(400))
+		afterBatchDelay = slp(400)
 		verifhook.Set("worker.afterRecv", slp(200))
 	case 2:
 		verifhook.Set("files.beforeClose", slp(30000))
@@ -240,6 +246,17 @@ func runLoop(w *pipe.Workload, dir string, stretchMs int, linger bool, limit tim
 		writer.ShowBar, writer.ShowPercentage = true, true
 		sorter := sorting.NVValueSorter
 		mon := o.mon
+		// Between two sample batches the renderer may take the lock: whatever is
+		// visible here is what a render at this instant would show.
+		verifhook.Set("agg.afterSampleBatch", func() {
+			if got, sampled := ext.MatchedLines(), uint64(len(mon.samples)); got < sampled && mon.lagAt == 0 {
+				mon.lagAt, mon.lagMatched, mon.lagSampled = mon.now(), got, sampled
+			}
+			mon.batchPoints++
+			if afterBatchDelay != nil {
+				afterBatchDelay()
+			}
+		})
 		helpers.RunAggregationLoop(ext, &monAgg{inner: counter, m: mon}, func() {
 			t := mon.now()
 			// what the real histogram command does in its render callback
@@ -321,6 +338,9 @@ func judge(o *loopObs, want map[string]int64, wantMatched uint64) (fs []finding,
 			add("renders-overlap", "render #%d started at %dns before render #%d ended at %dns", i, renders[i].a, i-1, renders[i-1].b)
 			break
 		}
+	}
+	if m.lagAt != 0 {
+		add("matched-below-counts", "between two sample batches (at %dns, where the renderer may run) the matched total was %d although %d matches had already been sampled into the displayed counts", m.lagAt, m.lagMatched, m.lagSampled)
 	}
 	// (c) ordering and completeness
 	final := renders[len(renders)-1]
@@ -499,6 +519,7 @@ func loopCase(c *run.Ctx, cs Case) bool {
 	c.Count("loop_runs", 1)
 	c.Count("sample_events", int64(len(o.mon.samples)))
 	c.Count("render_events", int64(len(o.mon.renders)))
+	c.Count("between_batch_points_checked", int64(o.mon.batchPoints))
 	c.Count("intermediate_renders_between_samples", int64(between))
 	for k, v := range o.hookHits {
 		c.Count("hook:"+k, v)
